@@ -79,7 +79,10 @@ def e_in(c: str, s: str):
     for x in s:
         if ord(x) == ord(c):
             found = True
-    return ((c in s) == found) and ((c in "ab,") == (ord(c) in (97, 98, 44))) and (chr(ord(c)) == c), ("fTrue" if found else "fFalse")
+    t = (c + " ").strip() if ord(c) > 32 else c  # a sliced representation of the same text (E-PATCH2)
+    return ((c in s) == found) and ((c in "ab,") == (ord(c) in (97, 98, 44))) and (chr(ord(c)) == c) and (
+        len(t) == 0 or ord(t) == ord(c)) and (
+        (t in "0123456789") == (48 <= ord(c) <= 57 or len(t) == 0)), ("fTrue" if found else "fFalse")
 
 
 def e_lower(s: str):
